@@ -33,61 +33,82 @@ def dummy_instance_keys(c):
     return c
 
 
-def gen_centroid_only(rng, idx):
+def gen_co_animals(rng, fc, n_an):
+    """Animals of one frame of size (fc["H"], fc["W"]): >= max(4 cells, 2 cells + 28 px) apart, node 0 near the centroid."""
+    P = _P()
+    H, W = fc["H"], fc["W"]
+    g = P.td_geom(fc)
+    eff, osc, sc = g["eff"], fc["os_c"], fc["scale_c"]
+    cell = F(osc) / (sc * eff)                       # one centroid cell in original pixels
+    sep = max(4 * cell + 2, 2 * cell + 28)           # own node always much nearer than any other animal's
+    animals = []
+    for _ in range(n_an):
+        placed = None
+        for _ in range(120):
+            border = 10 + (3 * cell if fc["refinement"] else 0)
+            lo_x, hi_x = math.ceil(border), math.floor(W - 1 - border)
+            lo_y, hi_y = math.ceil(border), math.floor(H - 1 - border)
+            if lo_x >= hi_x or lo_y >= hi_y:
+                break
+            cx = F(rng.randrange(8 * lo_x, 8 * hi_x + 1), 8)
+            cy = F(rng.randrange(8 * lo_y, 8 * hi_y + 1), 8)
+            ux, uy = P.app(g["cx"][0], cx), P.app(g["cy"][0], cy)
+            if P.tie_margin(ux, osc) < P.MU or P.tie_margin(uy, osc) < P.MU:
+                continue
+            if ux / osc > P.ncells(g["cx"][1], osc) - 1 + F(1, 2) or uy / osc > P.ncells(g["cy"][1], osc) - 1 + F(1, 2):
+                continue
+            if any(max(abs(cx - a["cent"][0]), abs(cy - a["cent"][1])) < sep for a in animals):
+                continue
+            placed = (cx, cy)
+            break
+        if placed is None:
+            continue
+        cx, cy = placed
+        kps = []
+        for k in range(fc["n_nodes"]):
+            if k > 0 and rng.random() < 0.3:
+                kps.append(None)
+                continue
+            r = 3 if k == 0 else 8
+            kps.append((cx + F(rng.randrange(-8 * r, 8 * r + 1), 8), cy + F(rng.randrange(-8 * r, 8 * r + 1), 8)))
+        animals.append({"kps": kps, "cent": (cx, cy)})
+    return animals
+
+
+def gen_centroid_only(rng, idx, mixed=False):
     P = _P()
     for _ in range(400):
-        H, W, mh, mw, variant = P.gen_sizes(rng)
-        if min(H, W) < 72:
+        if mixed:
+            mh, mw, sizes = P.gen_mixed_sizes(rng, 72)
+            variant = "mixed"
+            H, W = sizes[0]
+        else:
+            H, W, mh, mw, variant = P.gen_sizes(rng)
+            sizes = [(H, W)]
+        if min(min(x) for x in sizes) < 72:
             continue
         c = dummy_instance_keys({
             "kind": "centroid_only", "idx": idx, "H": H, "W": W, "mh": mh, "mw": mw, "variant": variant,
             "scale_c": rng.choice([F(1, 2), F(3, 4), F(1), F(1)]), "ms_c": rng.choice([1, 8, 16]),
             "os_c": rng.choice([1, 2, 4]), "refinement": rng.choice([None, None, None, "integral"]),
-            "batch": rng.randint(1, 4), "n_nodes": rng.randint(1, 3), "band": False, "n_videos": rng.choice([1, 1, 2])})
-        if not P.config_ok(H, W, mh, mw, [c["scale_c"]]):
+            "batch": rng.randint(2, 4) if mixed else rng.randint(1, 4), "n_nodes": rng.randint(1, 3), "band": False,
+            "n_videos": rng.choice([1, 1, 2])})
+        if not all(P.config_ok(h, w, mh, mw, [c["scale_c"]]) for h, w in sizes):
             continue
-        g = P.td_geom(c)
-        eff, osc, sc = g["eff"], c["os_c"], c["scale_c"]
-        cell = F(osc) / (sc * eff)                       # one centroid cell in original pixels
-        sep = max(4 * cell + 2, 2 * cell + 28)           # own node always much nearer than any other animal's
+        n_frames = rng.randint(2, 4) if mixed else rng.randint(1, 4)
+        if mixed:
+            c["sizes"], c["vid"], c["n_videos"] = [list(x) for x in sizes], P.frame_videos(rng, n_frames, len(sizes)), len(sizes)
         frames = []
-        for f in range(rng.randint(1, 4)):
-            animals = []
-            for _ in range(rng.choice([1, 1, 2, 2, 3])):
-                placed = None
-                for _ in range(120):
-                    border = 10 + (3 * cell if c["refinement"] else 0)
-                    lo_x, hi_x = math.ceil(border), math.floor(W - 1 - border)
-                    lo_y, hi_y = math.ceil(border), math.floor(H - 1 - border)
-                    if lo_x >= hi_x or lo_y >= hi_y:
-                        break
-                    cx = F(rng.randrange(8 * lo_x, 8 * hi_x + 1), 8)
-                    cy = F(rng.randrange(8 * lo_y, 8 * hi_y + 1), 8)
-                    ux, uy = P.app(g["cx"][0], cx), P.app(g["cy"][0], cy)
-                    if P.tie_margin(ux, osc) < P.MU or P.tie_margin(uy, osc) < P.MU:
-                        continue
-                    if ux / osc > P.ncells(g["cx"][1], osc) - 1 + F(1, 2) or uy / osc > P.ncells(g["cy"][1], osc) - 1 + F(1, 2):
-                        continue
-                    if any(max(abs(cx - a["cent"][0]), abs(cy - a["cent"][1])) < sep for a in animals):
-                        continue
-                    placed = (cx, cy)
-                    break
-                if placed is None:
-                    continue
-                cx, cy = placed
-                kps = []
-                for k in range(c["n_nodes"]):
-                    if k > 0 and rng.random() < 0.3:
-                        kps.append(None)
-                        continue
-                    r = 3 if k == 0 else 8
-                    kps.append((cx + F(rng.randrange(-8 * r, 8 * r + 1), 8), cy + F(rng.randrange(-8 * r, 8 * r + 1), 8)))
-                animals.append({"kps": kps, "cent": (cx, cy)})
+        for f in range(n_frames):
+            v = c["vid"][f] if mixed else 0
+            animals = gen_co_animals(rng, dict(c, H=sizes[v][0], W=sizes[v][1]), rng.choice([1, 1, 2, 2, 3]))
             if not animals:
                 break
             frames.append(animals)
-        if not frames or any(not a for a in frames):
+        if len(frames) < (2 if mixed else 1):
             continue
+        if mixed:
+            c["vid"] = c["vid"][:len(frames)]
         c["frames"] = frames
         return c
     raise RuntimeError("generator could not place a centroid-only case")
@@ -110,7 +131,7 @@ def run_impl(c, mods):
     P = _P()
     sc = P.build_scene(c)
     fids = list(range(len(c["frames"])))
-    video, labels, where = S.make_sources(sc, fids, c.get("n_videos", 1))
+    video, labels, where = S.make_sources(sc, fids, c.get("n_videos", 1), c["vid"] if P.is_mixed(c) else None)
     cfg = dict(os_c=c["os_c"], scale_c=float(c["scale_c"]), ms_c=c["ms_c"], max_h=c["mh"], max_w=c["mw"],
                batch=c["batch"], refinement=c["refinement"], max_instances=None)
     pred, stub = S.build_topdown_centroid_only_predictor(mods, sc, cfg)
@@ -146,12 +167,10 @@ def oracle_case(c, res, fixed_f61):
     import numpy as np
     P = _P()
     fails = []
-    eff = P.eff_of(c)
     s = float(c["scale_c"])
-    half = c["os_c"] / (2 * s * eff)
-    if c["refinement"]:
-        half = half        # the refined centroid is nearer to the truth than the rough one on an ideal map
     for fid, animals in enumerate(c["frames"]):
+        eff = P.eff_of(c, fid)                     # the frame's own size-matching scale
+        half = c["os_c"] / (2 * s * eff)           # (the refined centroid is nearer to the truth than the rough one on an ideal map)
         sel61 = SEL_F61 if (abs(eff - 1.0) > 1e-12 and len(animals) >= 2 and not fixed_f61) else None
         out = res["per_frame"].get(fid)
         if out is None:
@@ -207,14 +226,25 @@ def evaluate(run, cases, mods, fixed_f61):
             import traceback
             results.append({"error": f"{type(e).__name__}: {e}", "tb": traceback.format_exc()[-1200:]})
     terms, index = [], []
+    bterms, bindex = [], []
     for ci, c in enumerate(cases):
+        if P.is_mixed(c):       # several video sizes: the BATCH model, one term per batch actually assembled
+            for fb in P.batches_of(c, "LabelsReader"):
+                bterms.append(f"BCentroidOnly {core.cbool(fixed_f61)} {P.td_cfg_term(c)} "
+                              f"[{'; '.join(P.tframe_term(c, f, c['frames'][f]) for f in fb)}]")
+                bindex.append([(ci, f) for f in fb])
+            continue
         for fid, animals in enumerate(c["frames"]):
-            terms.append(f"CCentroidOnly {core.cbool(fixed_f61)} {P.td_cfg_term(c)} {core.clist(animals, P.animal_term)}")
+            terms.append(f"CCentroidOnly {core.cbool(fixed_f61)} {P.td_cfg_term(P.fview(c, fid))} {core.clist(animals, P.animal_term)}")
             index.append((ci, fid))
     model = core.coq_eval_sharded(PREAMBLE, terms, "co_run", "rco", shard=40, jobs=12)
+    bmodel = core.coq_eval_sharded(P.PREAMBLE_MB, bterms, "run_batch", "rbatch", shard=12, jobs=12) if bterms else []
     by_case = {}
     for ix, m in zip(index, model):
         by_case.setdefault(ix[0], []).append((ix[1], m))
+    for ixs, ms in zip(bindex, bmodel):
+        for ix, m in zip(ixs, ms):
+            by_case.setdefault(ix[0], []).append((ix[1], m))
     stats = {"co_rows_compared": 0, "co_skipped_near_tie": 0}
     disagreements = 0
     for ci, (c, res) in enumerate(zip(cases, results)):
@@ -224,12 +254,15 @@ def evaluate(run, cases, mods, fixed_f61):
         if "error" in res:
             fails.append((f"implementation raised {res['error']}", None))
         else:
-            eff = P.eff_of(c)
-            half = c["os_c"] / (2 * float(c["scale_c"]) * eff)
             if res["flags"]["preprocess"] is not False or res["flags"]["instances_key"] is not True:
                 diffs.append(f"make_pipeline flags {res['flags']['preprocess']}/{res['flags']['instances_key']}, model False/True")
+            if len(by_case.get(ci, [])) != len(c["frames"]):
+                diffs.append(f"model gives {len(by_case.get(ci, []))} frame results for {len(c['frames'])} frames")
             for fid, m in by_case.get(ci, []):
                 cgx, cgy, meff, rows = m
+                eff = P.eff_of(c, fid)
+                half = c["os_c"] / (2 * float(c["scale_c"]) * eff)
+                fH, fW = P.fsize(c, fid)
                 out = res["per_frame"].get(fid)
                 where = f"frame {fid}"
                 if out is None:
@@ -243,8 +276,8 @@ def evaluate(run, cases, mods, fixed_f61):
                     continue
                 for rec in res["log"]:
                     if rec["fid"] == fid and rec.get("ax"):
-                        P.cmp_affine(cgx[0], cgx[1], rec, "x", c["W"], where + " centroid net", diffs)
-                        P.cmp_affine(cgy[0], cgy[1], rec, "y", c["H"], where + " centroid net", diffs)
+                        P.cmp_affine(cgx[0], cgx[1], rec, "x", fW, where + " centroid net", diffs)
+                        P.cmp_affine(cgy[0], cgy[1], rec, "y", fH, where + " centroid net", diffs)
                 for k, (cell, carg, cent, mi, pts, gap) in zip(live, rows):
                     mx, my = P.q2f(cent[0]), P.q2f(cent[1])
                     ix, iy = out["cents"][k]
